@@ -70,7 +70,9 @@ CHECKS = {
              "C16_move_perm_nth of every layer turn as the geometric quarter turn of its slice), Hungarian rings for all sizes and accepted index pairs (C16_rings_general: single "
              "cycles, exact intersection points, spacing, inverses), globe for all a, b >= 1 (C16_globe_general), inverse-closedness of all these generator sets "
              "(C16_generator_sets_inverse_closed); the bounded kernel computations (cube n <= 6, rings <= 12, globe <= 6) are kept as cross-checks. Table-driven puzzles "
-             "(pyraminx, megaminx, ...) are checked by the oracle only. GAP: texts with extra whitespace inside cycles/JSON are outside the printer's image (covered by correspondence only); "
+             "(mini pyramorphix, picture cube, pyraminx, megaminx, fixed-corner 2x2x2, 3x3x3 face turns): translator T4b regenerates the literal move tables of moves.py / cube.py "
+             "into Coq on EVERY run and the kernel re-proves that every move is a permutation of the right size and order and that the generator sets are inverse-closed "
+             "(C16_*_table_ok); the generator lists the library builds are compared with the model built from the regenerated tables. GAP: texts with extra whitespace inside cycles/JSON are outside the printer's image (covered by correspondence only); "
              "non-ASCII digits and JSON outside 'lists of lists of non-negative integers' are not modelled (the model answers 'not modelled' and the check fails closed). "
              "Trusted: Coq kernel + vm_compute, Gap.v/Puzzles.v (validated), Python re/json/str semantics as modelled.",
         technique="Coq proof (GAP loader round trip, unbounded) + model/implementation correspondence on all shipped files and bounded parameter domains + structural oracle",
